@@ -14,6 +14,7 @@ CONSTANTS
   SeqAlphaB = {"A", "C", "-"}
   SeqLensB = {3}
   HomoLens = {6, 7, 8, 9}
+  RunLevel = 1
   QSeqs = 2
   PairAlpha = {}
   PairLen = 0
